@@ -72,17 +72,31 @@ theorem sumTo_add (n : Nat) (f g : Nat → Nat) : sumTo n (fun k => f k + g k) =
   | zero => rfl
   | succ n ih => simp only [sumTo, ih]; omega
 
+theorem sumTo_ltn (n t d : Nat) (f g : Nat → Nat) (ht : t < n) (h : ∀ j, j < n → f j ≤ g j) (hs : f t + d ≤ g t) :
+    sumTo n f + d ≤ sumTo n g := by
+  induction n with
+  | zero => omega
+  | succ n ih =>
+    simp only [sumTo]
+    by_cases htn : t = n
+    · subst htn
+      have := sumTo_le t f g (fun j hj => h j (Nat.lt_succ_of_lt hj))
+      omega
+    · have := ih (by omega) (fun j hj => h j (Nat.lt_succ_of_lt hj))
+      have := h n (Nat.lt_succ_self n)
+      omega
+
 def iPlus (P : Prog) : Instr → Nat
   | .decCount => 1
-  | .create k _ _ => if P.managed k then 1 else 0
-  | .act (.launch k _ _) => if P.managed k then 1 else 0
+  | .create k _ _ _ => if P.managed k then 1 else 0
+  | .act (.launch k _ _ _) => if P.managed k then 1 else 0
   | .joinAndFree l => l.length
   | _ => 0
 
 def iMinus (P : Prog) : Instr → Nat
   | .incCount => 1
   | .joinM _ => 1
-  | .act (.launch k _ _) => if P.managed k then 1 else 0
+  | .act (.launch k _ _ _) => if P.managed k then 1 else 0
   | .joinAndFree l => l.length
   | _ => 0
 
